@@ -175,10 +175,12 @@ func stanzaBytes(s *Stanza, seq int) string {
 // reason), whether the password arrived, and - direct invitations - the room.
 func inviteEv(kind string, inv muc.Invitation) vt.Ev {
 	e := vt.Ev{"ev": "invite_cb", "kind": kind, "ns": "other", "k": -1, "pw": "bad", "room": "-"}
-	switch inv.XMLName.Space {
-	case muc.NSUser:
+	switch {
+	case inv.XMLName == (xml.Name{}):
+		e["ns"] = "none" // no name: marshals as a mediated invitation (the documented default)
+	case inv.XMLName.Space == muc.NSUser && inv.XMLName.Local == "x":
 		e["ns"] = "user"
-	case muc.NSConf:
+	case inv.XMLName.Space == muc.NSConf && inv.XMLName.Local == "x":
 		e["ns"] = "conf"
 	}
 	var k int
